@@ -160,6 +160,9 @@ OTHER_TEXT = {'C02': ['parseJWT', 'JWT_Verify', 'verifyAudience', 'verifyIssuer'
 for _k, _fs in OTHER_TEXT.items():
     PROPS[_k]['facts'] = list(PROPS[_k].get('facts', [])) + ['text_' + _f for _f in _fs]
     PROPS[_k]['explanation'] += '; text obligations: ' + ', '.join(_fs)
+MORE_TEXT = {'C14': ['TraefikOidc_cacheVerifiedToken', 'New'], 'C20': ['createDefaultHTTPClient'], 'C15': ['TraefikOidc_buildAuthURL', 'TraefikOidc_buildURLWithParams', 'BuildLogoutURL', 'New'], 'C11': ['BuildLogoutURL'], 'C05': ['TraefikOidc_buildURLWithParams', 'New'], 'C01': ['New'], 'C19': ['New'], 'C10': ['New'], 'C09': ['New'], 'C03': ['TraefikOidc_buildAuthURL']}
+for _k, _fs in MORE_TEXT.items():
+    PROPS[_k]['facts'] = list(PROPS[_k].get('facts', [])) + ['text_' + _f for _f in _fs if 'text_' + _f not in PROPS[_k].get('facts', [])]
 for _k, _fs in SHAPES.items():
     PROPS[_k]['facts'] = list(PROPS[_k].get('facts', [])) + ['skel_' + _f for _f in _fs]
     PROPS[_k]['explanation'] += '; shape obligations: ' + ', '.join('Shape_' + _f for _f in _fs)
